@@ -38,10 +38,12 @@ def scenarios():
                         cfg = {"mode": mode, "parallel": 2, "tdb": -1, "key_exists": "none", "target": {"version": "5.0.7"}, "sched": "free",
                                "filter_lua": lua, "fslot": slots}
                         cfg.update(dbcfg)
+                        # (the lists are given longest prefix first in every other scenario: the decision must not depend on their order)
+                        plist = sorted(prefixes, key=lambda x: -len(x)) if cid % 2 else prefixes
                         if kind == "white":
-                            cfg["fkey_white"] = prefixes
+                            cfg["fkey_white"] = plist
                         elif kind == "black":
-                            cfg["fkey_black"] = prefixes
+                            cfg["fkey_black"] = plist
                         ents, eid = [], 0
                         for db in (0, 1, 2):
                             for k in KEYS:
